@@ -190,6 +190,16 @@ package wallet
 
 // Offline path (no swap needed): the proofs returned are worth EXACTLY the amount
 // plus, when requested, the input fee of exactly those proofs.
+// Send: the proofs handed to the caller are exactly the selection, and exactly these are moved to the
+// pending store before they are handed out; on the offline path their sum is the amount (plus the fee
+// for exactly these proofs when fees are included) - inherited from getProofsForAmount @exact
+//@ func (*Wallet).Send
+//@   tags C18 C19
+//@   requires @bound [C18] w != nil && w.db != nil && w.mints != nil && amount <= 1152921504606846976 && winv()
+//@   calls (storage.WalletDB).AddPendingProofs asserts @pending [C18] ps == proofsToSend
+//@   ensures @exact [C18] r1 == nil && snd.calls == old(snd.calls) ==> psum(r0) % 18446744073709551616 == amount + (includeFees ? wfee(r0, old(w.mints[mintURL])) : 0)
+//@   ensures @past [C19] r1 == nil ==> winv()
+
 //@ func (*Wallet).getProofsForAmount
 //@   tags C18 C19
 //@   requires @bound [C18] w != nil && w.db != nil && w.mints != nil && mint != nil && amount <= 1152921504606846976 && winv()
